@@ -155,7 +155,7 @@ def run(ctx):
     exes = build_all()
     ctx.phase('build')
     r = ctx.rng
-    n = 700 if ctx.quick else 9000
+    n = 330 if ctx.quick else 9000
     combos = [(s, i, f, e) for s in range(3) for i in range(2) for f in range(2) for e in (256, 128, 64)]
     # every trait combination at least twice, then random
     cases = [gen_case(r, forced=combos[k % len(combos)]) for k in range(2 * len(combos))] + [gen_case(r) for _ in range(n)]
